@@ -42,7 +42,7 @@ pub struct BindCase {
     pub ops: Vec<Op>,
 }
 
-pub const KINDS: [Kind; 4] = [Kind::Rep, Kind::Pull, Kind::Router, Kind::Pub];
+pub const KINDS: [Kind; 6] = [Kind::Rep, Kind::Pull, Kind::Router, Kind::Pub, Kind::Push, Kind::XPub];
 
 struct Live {
     text: String,
@@ -61,6 +61,13 @@ pub fn bind_outcome(c: &BindCase) -> Outcome {
             let mut f: Vec<Failure> = vec![];
             let mut classes: Vec<String> = vec![];
             let mut s = AnySocket::new(kind, None);
+            // every other history runs with a monitor installed (receiver kept)
+            let _monitor_rx = if c.ops.len() % 2 == 1 {
+                classes.push("with-a-monitor-installed".into());
+                Some(realnet::sock_monitor(&mut s))
+            } else {
+                None
+            };
             let mut live: Vec<Live> = vec![];
             let mut gone: Vec<Endpoint> = vec![];
             let mut conns: Vec<(RawConn, String)> = vec![]; // (connection, endpoint text it was made to)
@@ -442,7 +449,7 @@ pub fn run(ctx: &Ctx) -> (Report, PropertyMeta) {
         }
     }
     let r = run_cases(ctx, "bind", &cases, bind_outcome);
-    report.exhaustive_parts.push(format!("REP/PULL/ROUTER/PUB x 4 first transports x 2 second transports, fixed 29-op history touching every op kind: {} cases", cases.len()));
+    report.exhaustive_parts.push(format!("REP/PULL/ROUTER/PUB/PUSH/XPUB x 4 first transports x 2 second transports, fixed 29-op history touching every op kind: {} cases", cases.len()));
     report.merge(r);
     let n = t.pick(500, 10000);
     let r = run_random(ctx, "bind", n, 30..=60, gen_bind, bind_outcome);
@@ -460,7 +467,7 @@ pub fn run(ctx: &Ctx) -> (Report, PropertyMeta) {
 
     let meta = PropertyMeta {
         level: "exploration",
-        rule: "proptest operation sequences (length <= 15) on real REP, PULL, ROUTER and PUB sockets over {bind tcp://127.0.0.1:0, tcp://[::1]:0, tcp://localhost:0, ipc://<fresh path>; bind an endpoint that is already bound; bind an ipc path in a missing directory; unbind a bound endpoint; unbind a never-bound / already unbound endpoint, including near misses of a live bind (its port under another address or under a host name, its address under another port, an ipc path extending a bound one); a raw client connects and completes the handshake; a raw client connects, sends a prefix of its handshake (0..all-but-one bytes) and stays silent; exchange a message on an established connection; one accept() fails because the process is briefly out of file descriptors}, against a reference model of the bind set. Oracle: a successful bind returns an endpoint with a non-zero port whose text form parses back to it and is connectable; binds() equals the model after every operation; a failed bind changes nothing; unbind of a bound endpoint returns (within 5 s, also while connections to it are in the middle of their handshake) Ok, that endpoint refuses connections (IPC file gone) when it returns, every other bound endpoint still completes a handshake and established connections (including those made to the unbound endpoint) still carry a message; anything else fails with NoSuchBind. Non-trivial = an unbind while >= 2 binds exist, or a failed operation; distinct by sequence".into(),
+        rule: "proptest operation sequences (length <= 15) on real REP, PULL, ROUTER, PUB, PUSH and XPUB sockets (every other history with a monitor installed) over {bind tcp://127.0.0.1:0, tcp://[::1]:0, tcp://localhost:0, ipc://<fresh path>; bind an endpoint that is already bound; bind an ipc path in a missing directory; unbind a bound endpoint; unbind a never-bound / already unbound endpoint, including near misses of a live bind (its port under another address or under a host name, its address under another port, an ipc path extending a bound one); a raw client connects and completes the handshake; a raw client connects, sends a prefix of its handshake (0..all-but-one bytes) and stays silent; exchange a message on an established connection; one accept() fails because the process is briefly out of file descriptors}, against a reference model of the bind set. Oracle: a successful bind returns an endpoint with a non-zero port whose text form parses back to it and is connectable; binds() equals the model after every operation; a failed bind changes nothing; unbind of a bound endpoint returns (within 5 s, also while connections to it are in the middle of their handshake) Ok, that endpoint refuses connections (IPC file gone) when it returns, every other bound endpoint still completes a handshake and established connections (including those made to the unbound endpoint) still carry a message; anything else fails with NoSuchBind. Non-trivial = an unbind while >= 2 binds exist, or a failed operation; distinct by sequence".into(),
         assumptions: vec![
             "'duplicate bind' uses literal-IP and ipc endpoints only: tcp://localhost:P can legally succeed twice (once per address family)".into(),
             "cases run on one thread and a connection that unexpectedly succeeds is retried 3 times (an unrelated process may be handed a just-released port)".into(),
